@@ -3,10 +3,12 @@
    Compiled by setup.sh / the check driver from directory ocaml/gen. *)
 Require Extraction.
 Require ExtrOcamlBasic.
-From WR Require Import Lib.Bits Mpq.Crypt Mpq.Jenkins.
+From WR Require Import Lib.Bits Lib.Codec Mpq.Crypt Mpq.Jenkins Fmt.Wdt Fmt.Wdl.
 Extraction Language OCaml.
 Extraction "model.ml"
   Crypt.crypt_table Crypt.hash_string Crypt.ref_hash Crypt.encrypt_block Crypt.decrypt_block
   Crypt.decrypt_dword Crypt.encrypt_data Crypt.decrypt_file_data Crypt.ref_table
   Crypt.ref_enc Crypt.ref_dec
-  Jenkins.jenkins_one_at_a_time Jenkins.hashlittle2 Jenkins.het_hash Jenkins.ref_hashlittle2.
+  Jenkins.jenkins_one_at_a_time Jenkins.hashlittle2 Jenkins.het_hash Jenkins.ref_hashlittle2 Jenkins.het_hash_ref Jenkins.ref_oaat
+  Codec.walk_all Codec.write_chunks Codec.enc Codec.dec Codec.cstrs_enc Codec.cstrs_split
+  Wdt.wdt_write Wdt.wdt_read Wdt.wdt_wf Wdl.maof_check.
